@@ -86,9 +86,12 @@ class H2Client:
         self.flush()
         return sid
 
-    def upload(self, sid: int, body: bytes, frame_plan: List[int], end_stream: bool = True) -> None:
+    def upload(self, sid: int, body: bytes, frame_plan: List[int], end_stream: bool = True,
+               pad: int = 0) -> None:
+        """`pad`: every DATA frame carries that many padding bytes (which count against the
+        flow-control windows like the data itself)."""
         self.uploads[sid] = {"body": body, "pos": 0, "plan": list(frame_plan), "i": 0,
-                             "end": end_stream, "done": False}
+                             "end": end_stream, "done": False, "pad": pad}
         self.push_uploads()
 
     def push_uploads(self) -> bool:
@@ -102,6 +105,8 @@ class H2Client:
                 except (h2.exceptions.StreamClosedError, h2.exceptions.NoSuchStreamError):
                     u["done"] = True
                     break
+                pad = u.get("pad", 0)
+                win -= pad + 1 if pad else 0
                 if win <= 0:
                     break
                 want = u["plan"][u["i"]] if u["i"] < len(u["plan"]) else len(u["body"]) - u["pos"]
@@ -111,7 +116,8 @@ class H2Client:
                 last = u["pos"] + n >= len(u["body"])
                 try:
                     self.h2.send_data(sid, u["body"][u["pos"]:u["pos"] + n],
-                                      end_stream=bool(last and u["end"]))
+                                      end_stream=bool(last and u["end"]),
+                                      pad_length=pad if pad else None)
                 except h2.exceptions.ProtocolError:
                     u["done"] = True
                     break
